@@ -77,6 +77,17 @@ def real_driver(name, arg):
     return Replay.get().driver(name, arg)
 
 
+def fresh_driver(name, arg):
+    """run a driver in a NEW replay interpreter (for call sequences: no state from earlier replays may be present)"""
+    if Replay._inst is not None:
+        try:
+            Replay._inst.p.kill()
+        except Exception:       # noqa
+            pass
+        Replay._inst = None
+    return Replay.get().driver(name, arg)
+
+
 # --------------------------------------------------------------------------- fields and frames
 
 class Field:
